@@ -97,7 +97,9 @@ func (g *Gen) VerifyUnit(ct *Contract, inst *ssa.Function) (res *UnitResult) {
 		}
 		for i := range ct.Asserts {
 			a := &ct.Asserts[i]
-			a.Dead = !has(a.Anchor)
+			// only proof hints (labels starting with "lemma") may be dropped when their anchor is gone;
+			// a property-carrying assert whose anchor vanished makes the unit undecided (reported)
+			a.Dead = !has(a.Anchor) && strings.HasPrefix(a.Label, "lemma")
 			why := fmt.Sprintf("its anchor %q occurs nowhere in the function any more", a.Anchor)
 			for _, gv := range deadGhosts {
 				if mentionsWord(a.Text, gv) {
@@ -117,7 +119,9 @@ func (g *Gen) VerifyUnit(ct *Contract, inst *ssa.Function) (res *UnitResult) {
 				res.Obs = nil
 				return
 			}
-			panic(r)
+			// an internal error of the generator on this unit: the unit is undecided, never a crash
+			res.Unsupported = fmt.Sprintf("internal error of the VC generator: %v (at %s)", r, u.curPos)
+			res.Obs = nil
 		}
 	}()
 	g.reg.emitFact = func(f string) { u.assumeStructural(Term{f, SBool}) }
